@@ -15,7 +15,7 @@ def check(run, replay=None):
               "extracted model is given only inputs and tapes; compared byte for byte: round-one message, receiver state "
               "(bytemuck, incl. beta at offset 32 and v_x), b, the round-two message (49,248 B; 83,040 B for the base-OT "
               "variant incl. both base-OT replies), c, d. Implementation-only oracle on every run: c + d == a*b in k256. "
-              "non-trivial = accepted runs with a non-zero input"),
+              "non-trivial = accepted runs with a non-zero input Half of the sessions hand the sender an output buffer that was used before; one case per variant has input (0,0) with an all-zero eta tape; receiver tapes with all-zero / all-one choice bits."),
         assumptions=["merlin framing is injective in (label, message) sequences (the model's oracle input is the structured "
                      "operation list)",
                      "k256 implements a group satisfying group_laws and its 33-byte point encoding round-trips "
